@@ -56,14 +56,22 @@ ENGINES = {
 }
 
 
-def _random(variant, seed, runs, ops, **kw):
+def _random(variant, seed, runs, ops, family='g', **kw):
     p = {'seed': seed, 'runs': runs, 'ops': ops}
     p.update(kw)
-    return {'kind': 'random', 'variant': variant, 'params': p}
+    return {'kind': 'random', 'variant': variant, 'params': p, 'family': family}
 
 
-def _script(variant, file):
-    return {'kind': 'script', 'variant': variant, 'params': {'file': file}}
+def _script(variant, file, family='g'):
+    return {'kind': 'script', 'variant': variant, 'params': {'file': file}, 'family': family}
+
+
+def _layout(variant):
+    return {'kind': 'layout', 'variant': variant, 'params': {}, 'family': 'l'}
+
+
+def _ptr(variant):
+    return {'kind': 'ptr', 'variant': variant, 'params': {}, 'family': 'p'}
 
 
 def graph_conformance(tier, seed):
@@ -73,32 +81,65 @@ def graph_conformance(tier, seed):
     scale = 1 if tier == 'quick' else 8
     for b in builds:
         st.append(_script(b, 'regress/core.ndjson'))
-        st.append(_script(b, 'regress/clean.ndjson'))
-        st.append(_random(b, seed + 4000, 8 * scale, 500, faultp=0.005, ns=2, np=0, nw=1, maxobjs=8, clean=1))
+        st.append(_script(b, 'regress/clean.ndjson', family='c'))
+        st.append(_layout(b))
+        st.append(_ptr(b))
+        st.append(_random(b, seed + 4000, 8 * scale, 500, faultp=0.005, ns=2, np=0, nw=1, maxobjs=8, clean=1, family='c'))
         st.append(_random(b, seed, 12 * scale, 500, faultp=0.0, ns=2, np=1, nw=1, maxobjs=8))
         st.append(_random(b, seed + 1000, 12 * scale, 500, faultp=0.02, ns=2, np=1, nw=1, maxobjs=8))
         st.append(_random(b, seed + 2000, 6 * scale, 400, faultp=0.0, ns=3, np=0, nw=0, maxobjs=14))
-        st.append(_random(b, seed + 3000, 8 * scale, 500, faultp=0.01, ns=2, np=0, nw=1, maxobjs=8, auto=1))
+        st.append(_random(b, seed + 3000, 8 * scale, 500, faultp=0.01, ns=2, np=0, nw=1, maxobjs=8, auto=1, family='a'))
     return st
 
 
-GRAPH_PROPS = ['C01', 'C02', 'C03', 'C04', 'C05', 'C06', 'C07', 'C08', 'C09', 'C11', 'C12', 'C10', 'C13', 'C14', 'C15', 'C16']
+GRAPH_PROPS = ['C01', 'C02', 'C03', 'C04', 'C05', 'C06', 'C07', 'C08', 'C09', 'C11', 'C12', 'C10', 'C13', 'C14', 'C15', 'C16', 'C20']
 
 
 GRAPH_ENGINES = ['resur', 'core', 'pin', 'nofin', 'fault', 'faultnofin', 'weak', 'weaknofin', 'auto', 'cyc', 'sat', 'clean', 'cleanfault']
 
+# which engines decide which property (stage results are cached per tree, so properties share the work)
+PROP_ENGINES = {
+    'C01': ['resur', 'core', 'pin', 'nofin', 'fault', 'faultnofin', 'weak'],
+    'C02': ['resur', 'core', 'pin', 'nofin', 'weak'],
+    'C03': ['core', 'nofin', 'fault', 'weak', 'cyc'],
+    'C04': ['core', 'pin', 'fault', 'weak'],
+    'C05': ['resur', 'core', 'nofin', 'fault', 'weak'],
+    'C06': ['resur', 'core', 'weak'],
+    'C07': ['fault', 'faultnofin', 'weaknofin', 'cleanfault', 'auto', 'cyc'],
+    'C08': ['weak', 'weaknofin', 'clean'],
+    'C09': ['weak', 'weaknofin', 'cyc', 'sat'],
+    'C10': ['clean', 'cleanfault'],
+    'C11': ['core', 'auto', 'weak', 'cyc'],
+    'C12': ['core', 'fault', 'clean', 'auto'],
+    'C13': ['core', 'weak', 'cyc'],
+    'C14': ['cyc', 'auto'],
+    'C15': ['auto'],
+    'C16': ['sat'],
+    'C20': ['core'],
+}
+# random / scripted stage families per property: g = graph, a = auto, c = cleaners, l = layout, p = pointer tables
+PROP_FAMILIES = {
+    'C01': 'gacl', 'C02': 'gac', 'C03': 'gacl', 'C04': 'gac', 'C05': 'gac', 'C06': 'g', 'C07': 'gac', 'C08': 'gc', 'C09': 'gl',
+    'C10': 'c', 'C11': 'gac', 'C12': 'gac', 'C13': 'gl', 'C14': 'a', 'C15': 'a', 'C16': 'g', 'C20': 'glp',
+}
+
 
 def plan(pid, tier, seed):
     if pid in GRAPH_PROPS:
+        engines = PROP_ENGINES[pid]
+        if tier == 'thorough':
+            engines = list(GRAPH_ENGINES) if pid in ('C01', 'C03', 'C07') else engines
         conf = []
-        for en in GRAPH_ENGINES:
+        for en in engines:
             for b in ENGINES[en]['builds'][tier]:
                 conf.append({'kind': 'replay', 'variant': b, 'engine': en})
         only = os.environ.get('VERIF_ONLY_ENGINES')   # development aid: restrict the plan (never used by registered commands)
         if only:
             keep = only.split(',')
-            return {'engines': [e for e in GRAPH_ENGINES if e in keep], 'conformance': [c for c in conf if c['engine'] in keep]}
-        return {'engines': list(GRAPH_ENGINES), 'conformance': conf + graph_conformance(tier, seed)}
+            return {'engines': [e for e in engines if e in keep], 'conformance': [c for c in conf if c['engine'] in keep]}
+        fam = PROP_FAMILIES[pid]
+        rest = [c for c in graph_conformance(tier, seed) if c['family'] in fam]
+        return {'engines': list(engines), 'conformance': conf + rest}
     raise SystemExit('no plan for property %s' % pid)
 
 
